@@ -45,6 +45,12 @@ def patterns(n, tier, cls):
 
 def blocks(tier, seed):
     out = []
+    for cls, n in (("2d", 3), ("2d", 5), ("3d", 5), ("axisym", 3)):
+        # amplitude vectors that do not complete the highest mode (valid input)
+        out.append({"cls": cls, "n": n, "R": RADII[(seed + n) % 3], "centre": "generic", "tier": tier, "mode": "first-order"})
+        out.append({"cls": cls, "n": n, "R": RADII[(seed + n + 1) % 3], "centre": "generic", "tier": tier, "mode": "integral"})
+    for cls in ("2d", "3d", "axisym"):
+        out.append({"cls": cls, "mode": "mutation", "n": {"2d": 4, "3d": 8, "axisym": 3}[cls], "tier": tier})
     for cls, n in (("2d", 8), ("3d", 24), ("axisym", 4)):
         for R in RADII:
             for ci, centre in enumerate(("origin", "generic")):
@@ -55,6 +61,13 @@ def blocks(tier, seed):
 
 def cases(block):
     cls, n = block["cls"], block["n"]
+    if block["mode"] == "mutation":
+        # operation sequences on ONE droplet object: read everything, change parameters, read again
+        pats = [[0.0] * n, [0.15] + [0.0] * (n - 1), [0.0] * (n - 1) + [-0.2], [0.1, -0.1] + [0.05] * (n - 2)]
+        for a, b in itertools.permutations(range(len(pats)), 2):
+            for how in ("setter", "inplace", "data-assign", "radius", "position"):
+                yield {"cls": cls, "n": n, "mode": "mutation", "first": pats[a], "second": pats[b], "how": how}
+        return
     for pat in patterns(n, block["tier"], cls):
         if block["mode"] == "first-order":
             for eps in (1e-4, 1e-5):
@@ -148,7 +161,65 @@ def volume_3d(cls, R, amps):
     return float(np.sum(w[:, None] * r**3 / 3) * (2 * PI / len(ph)))
 
 
+def observe(cls, drop):
+    """all geometric observables of a droplet object"""
+    if cls == "2d":
+        ang = (np.array(PHI2),)
+    else:
+        T, P = np.meshgrid(TH, PH, indexing="ij")
+        ang = (T.ravel(), P.ravel())
+    a1 = ang if cls != "axisym" else ang[:1]
+    obs = {"distance": np.asarray(drop.interface_distance(*a1)), "position": np.asarray(drop.interface_position(*ang)), "curvature": np.asarray(drop.interface_curvature(*a1)) * np.ones(len(ang[0]))}
+    if cls == "2d":
+        obs.update(volume=drop.volume, surface=drop.surface_area, surface_approx=drop.surface_area_approx)
+    else:
+        obs.update(volume_approx=drop.volume_approx)
+        if cls == "3d":
+            obs.update(volume=drop.volume)
+    obs["triangulation"] = np.asarray(drop.get_triangulation(0.7)["vertices"])
+    obs["bounds"] = np.concatenate(drop.data_bounds)
+    return obs
+
+
+def run_mutation(case, ctx):
+    cls, n = case["cls"], case["n"]
+    tags = {"cls": cls, "how": case["how"], "mode": "mutation"}
+    c = centre_of(cls, "generic")
+    R1, R2 = 1.3, (2.1 if case["how"] == "radius" else 1.3)
+    c2 = list(c)
+    if case["how"] == "position":
+        c2[-1] += 0.75
+    drop = make(cls, c, R1, case["first"])
+    observe(cls, drop)  # first read (may fill caches)
+    ctx.op()
+    how = case["how"]
+    if how == "setter":
+        drop.amplitudes = np.array(case["second"], float)
+    elif how == "inplace":
+        drop.amplitudes[...] = np.array(case["second"], float)
+    elif how == "data-assign":
+        drop.data["amplitudes"] = np.array(case["second"], float)
+    elif how == "radius":
+        drop.amplitudes = np.array(case["second"], float)
+        drop.radius = R2
+    else:
+        drop.amplitudes = np.array(case["second"], float)
+        drop.position = np.array(c2, float)
+    got = observe(cls, drop)
+    ctx.op()
+    want = observe(cls, make(cls, c2, R2, case["second"]))
+    for k in want:
+        ok = np.allclose(np.asarray(got[k], float), np.asarray(want[k], float), rtol=1e-12, atol=1e-14)
+        ctx.check("C13.state-independent", bool(ok), {"quantity": k, "got": np.asarray(got[k], float).ravel()[:3], "fresh_object": np.asarray(want[k], float).ravel()[:3]}, tags)
+    cp = drop.copy()
+    got2 = observe(cls, cp)
+    ctx.check("C13.state-independent", all(np.allclose(np.asarray(got2[k], float), np.asarray(want[k], float), rtol=1e-12, atol=1e-14) for k in want), {"quantity": "copy"}, tags)
+    ctx.count("mutation-sequences")
+
+
 def run_case(case, ctx):
+    if case["mode"] == "mutation":
+        return run_mutation(case, ctx)
     cls, n, R, eps = case["cls"], case["n"], case["R"], case["eps"]
     amps = [0.0] * n
     for i, a in case["pattern"]:
@@ -260,4 +331,4 @@ def run_case(case, ctx):
 
 def expected_positive(tier):
     return ["C13.shape-function", "C13.position", "C13.triangulation", "C13.curvature-1st", "C13.volume-1st", "C13.volume", "C13.surface", "C13.sphere-limit",
-            "non-zero-amplitudes", "several-simultaneous-modes"]
+            "non-zero-amplitudes", "several-simultaneous-modes", "C13.state-independent", "mutation-sequences"]
